@@ -60,4 +60,8 @@ Section Accepts.
     (forall n e, lookup n reg = Some e -> version T (e_supported e) = v) ->
     Forall2 (within v) actual steps -> Forall2 accepted actual steps.
   Proof. intros P. apply pipeline_chain in P. eapply chain_accepts; eauto. Qed.
+  Lemma within_accepted_unfolded v a st :
+    (within v a st <-> version T a = v /\ le T a (snd st) = Ok true)
+    /\ (accepted a st <-> le T a (e_supported (snd (fst st))) = Ok true).
+  Proof. unfold within, accepted, supports. tauto. Qed.
 End Accepts.
